@@ -73,13 +73,13 @@ def _topo_body(cases):
 
 
 def _launch(ctx, strength):
-    """Start the implementation-side processes concurrently (JIT compilation dominates: one process per identity)."""
-    ex = ThreadPoolExecutor(max_workers=4)
-    ctx.futs = {
-        "corr": ex.submit(ctx.run_impl, "c01_impl.py", {"strength": strength, "parts": ["arrays", "rule", "topo"]}, 2400),
-        "s1": ex.submit(ctx.run_impl, "c01_impl.py", {"strength": strength, "parts": ["search"], "identity": 1}, 3400),
-        "s2": ex.submit(ctx.run_impl, "c01_impl.py", {"strength": strength, "parts": ["search"], "identity": 2}, 3400),
-    }
+    """Start the implementation-side processes concurrently: numba compiles every kernel family anew in each process
+    (15-40 s each), so the four operator families run in four processes and the driver combines their vectors."""
+    ex = ThreadPoolExecutor(max_workers=5)
+    ctx.futs = {"corr": ex.submit(ctx.run_impl, "c01_impl.py", {"strength": strength, "parts": ["arrays", "rule", "topo"]}, 2400)}
+    for w in ("V", "K", "W", "Kt"):
+        ctx.futs[w] = ex.submit(ctx.run_impl, "c01_impl.py", {"strength": strength, "parts": ["search"], "operator": w}, 3400,
+                                4)
     ctx.futs_strength = strength
 
 
@@ -101,6 +101,10 @@ def correspond(ctx):
     for k, ch in enumerate(U.chunks(topo, 200)):
         jobs.append(("c01topo%d" % k, _topo_body(ch)))
         names.append(("topo", ch))
+    adj = res.get("adjacent", [])
+    jobs.append(("c01adjacent", HEADER + "Open Scope nat_scope.\nDefinition cases : list (list elem * list bool) := %s.\n" % U.lst(
+        "(%s, %s)" % (U.elems(c["els"]), U.bools(c["adj"])) for c in adj) + "Eval vm_compute in (failing adjacent_case_ok cases).\n"))
+    names.append(("adjacent", adj))
     outs = U.eval_many(ctx, jobs, workers=4, timeout=1500)
     n_eval, nontriv = 0, 0
     hist = {"get_arrays_cases": len(res["arrays"]), "rule_orders": sorted(int(o) for o in res["rule"]), "rule_orders_structural": sorted(int(o) for o in res.get("rule2", {})),
@@ -124,7 +128,13 @@ def correspond(ctx):
         if len(nl) != 1:
             ctx.problem("correspondence", "could not parse the %s comparison output" % kind, out[-1500:])
             continue
-        if kind == "arrays":
+        if kind == "adjacent":
+            n_eval += len(data)
+            hist["elements_adjacent_grids"] = len(data)
+            for i in nl[0]:
+                ctx.corr["disagreements"] += 1
+                ctx.problem("correspondence", "elements_adjacent and the model disagree on %s" % data[i]["els"])
+        elif kind == "arrays":
             n_eval += len(data)
             nontriv += sum(1 for c in data if len(c["test_indices"]) > sum(1 for a, b in zip(c["ts"], c["rs"]) if a and b))
             for i in nl[0]:
@@ -158,19 +168,50 @@ def correspond(ctx):
                            for c in res["arrays"][1:3]]
 
 
+TARGET = 1e-6
+
+
+def _judge(seq):
+    """ok: the residual falls below 1e-6 (the last one is below) and never grows by more than a factor 2 from one order
+    to the next while above 1e-6 -- convergence, never a single order."""
+    for x, y in zip(seq, seq[1:]):
+        if x >= TARGET and y > 2 * x:
+            return "fail"
+    return "ok" if seq[-1] < TARGET else "fail"
+
+
+def _norm(x):
+    return sum(t * t for t in x) ** 0.5
+
+
 def search(ctx, strength):
     if not hasattr(ctx, "futs") or ctx.futs_strength != strength:
         _launch(ctx, strength)
-    worst = {}
-    for key in ("s1", "s2"):
-        res = ctx.futs[key].result()
+    vec = {}
+    for w in ("V", "K", "W", "Kt"):
+        res = ctx.futs[w].result()
         if res is None:
-            continue
+            return
+        vec[w] = res["vectors"]["cases"]
         ctx.search_info["evaluations"] += res["search_evals"]
-        worst.update(res.get("worst", {}))
-        for f in res["failures"]:
-            ctx.failure(f["signature"], f["what"], f["data"])
-    ctx.search_info["notes"].append({"residuals_per_order": worst})
+    table = {}
+    for k, c in enumerate(vec["V"]):
+        seqs = {1: [], 2: []}
+        for o in range(len(c["orders"])):
+            Vp, Kg = vec["V"][k]["vectors"][o], vec["K"][k]["vectors"][o]
+            Wg, Kt = vec["W"][k]["vectors"][o], vec["Kt"][k]["vectors"][o]
+            seqs[1].append(_norm([p - q for p, q in zip(Kg, Vp)]) / _norm(Vp))
+            seqs[2].append(_norm([p - q for p, q in zip(Wg, Kt)]) / _norm(Kt))
+        verdicts = {i: _judge(s) for i, s in seqs.items()}
+        table[c["tag"]] = {"orders": c["orders"], "first_identity": seqs[1], "second_identity": seqs[2],
+                           "verdicts": [verdicts[1], verdicts[2]]}
+        data = {k2: c[k2] for k2 in ("mesh", "vertices", "elements", "a", "b", "orders")}
+        for i, name in ((1, "first identity (1/2 M + K) g = V psi"), (2, "second identity W g = (1/2 M' - K') psi")):
+            if verdicts[i] == "fail":
+                ctx.failure("calderon:%s-identity-residual-does-not-fall-below-1e-6" % ("first" if i == 1 else "second"),
+                            "%s: residuals %s at orders %s on %s" % (name, ["%.1e" % x for x in seqs[i]], c["orders"], c["tag"]),
+                            dict(data, residuals=seqs[i]))
+    ctx.search_info["notes"].append({"residuals_per_order": table})
 
 
 def replay(ctx):
